@@ -40,7 +40,7 @@ fn key_of(short: &str) -> String {
 }
 
 /// library specification, JSON: {short, imports:[short], health, delivery, start, k, fault, renames:bool, cut, variant}
-fn lib_source(spec: &Value) -> String {
+pub fn lib_source(spec: &Value) -> String {
     let s = spec["short"].as_str().unwrap();
     let imports: Vec<String> = spec["imports"]
         .as_array()
@@ -376,7 +376,7 @@ fn external_names(spec: &Value) -> Vec<(String, String)> {
     v
 }
 
-fn generate_c13(seed: u64, quick: bool) -> Value {
+pub fn generate_c13(seed: u64, quick: bool) -> Value {
     let mut rng = Rng::new(seed);
     let hash_seed = rng.next_u64() | 1;
     let n = rng.range(1, 4) as usize;
